@@ -69,7 +69,7 @@ def expected : List (String × List Entry) := [
     ⟨"binary.Read", "r, binary.LittleEndian, &fh", .readFull⟩,
     ⟨"io.CopyN", "dw, r, int64(cab.Header.TotalSize - cab.Header.OffsetFiles)", .copy⟩,
     ⟨"io.ReadFull", "r, cab.Signature", .readFull⟩,
-    ⟨"r.Read", "make([]byte, 1)", .probe⟩]),
+    ⟨"io.Copy", "io.Discard, r", .copy⟩]),
   ("authenticode.DigestPowershell", [
     ⟨"bufio.NewReader", "r", .bufioNew⟩,
     ⟨"detectUtf16", "br, si.start, si.end", .helper⟩,
@@ -133,6 +133,9 @@ def expected : List (String × List Entry) := [
     ⟨"io.LimitReader", "io.MultiReader(bytes.NewReader(headerBuf), code, bytes.NewReader(make([]byte, padding))), sigStart", .derived⟩,
     ⟨"io.LimitReader", "r, markers.sigLen", .derived⟩,
     ⟨"io.Copy", "ioutil.Discard, r", .copy⟩]),
+  ("pgptools.readOneSignature", [
+    ⟨"packet.Read", "r", .client⟩,
+    ⟨"io.ReadFull", "r, make([]byte, 1)", .readFull⟩]),
   ("machos.scanFile", [
     ⟨"io.ReadFull", "r, ident[0:]", .readFull⟩,
     ⟨"io.MultiReader", "bytes.NewReader(ident[:]), r", .derived⟩,
